@@ -4,7 +4,7 @@ package engines
 // program harness/wasm (built with GOOS=js GOARCH=wasm and run under Node by lib/props/C19.py); natively the
 // backend does not exist, so Exec only answers SKIP.
 //
-//	wasm draw <op>; …   size W H | sc X Y MAIN COMB STYLE | fill R STYLE | ss STYLE | show | sync | lock X Y W H 0|1
+//	wasm draw <op>; …   size W H | sc X Y MAIN COMB STYLE | fill R STYLE | variant fz | ss STYLE | show | sync | lock X Y W H 0|1
 //	                    | cur X Y | hide | cs N COLOR | clear | beep | title HEX
 //	wasm ev <op>; …     em F|- | dm | ep | dp | ef | df | suspend | resume | key HEXNAME sh al ct me
 //	                    | click X Y B sh al ct | move X Y B sh al ct | paste 0|1 | focus 0|1
@@ -198,6 +198,9 @@ func wasmGen(g *h.Gen) {
 	// ---- draw histories
 	for i := 0; i < g.N(220, 12000); i++ {
 		var ops []string
+		if fillZWSuffix() != "" { // model variant marker for the Lean driver (no effect on the screen), see cb.go
+			ops = append(ops, "variant fz")
+		}
 		w, hh := 80, 24
 		if !r.Chance(3) {
 			w, hh = r.Range(1, 8), r.Range(1, 4)
